@@ -8,6 +8,8 @@ DRIVERS = [
     dict(name="calls_noop", src="calls.cpp", defines=["CALLS_NOOP"], ops=["callsn"]),
     dict(name="calls_dylib", src="calls.cpp", defines=["CALLS_DYLIB"], ops=["callsd"], flags=["-rdynamic"],
          prebuild=[("calls_guestlib.cpp", "libcalls0.so", ["LIB=0"]), ("calls_guestlib.cpp", "libcalls1.so", ["LIB=1"])]),
+    dict(name="calls_dylib_etls", src="calls.cpp", defines=["CALLS_DYLIB", "RLBOX_EMBEDDER_PROVIDES_TLS_STATIC_VARIABLES"], ops=["callsde"], flags=["-rdynamic"],
+         prebuild=[("calls_guestlib.cpp", "libcalls0.so", ["LIB=0"]), ("calls_guestlib.cpp", "libcalls1.so", ["LIB=1"])]),
     dict(name="calls_noop_etls", src="calls.cpp", defines=["CALLS_NOOP", "RLBOX_EMBEDDER_PROVIDES_TLS_STATIC_VARIABLES"], ops=["callsne"]),
 ]
 
@@ -20,6 +22,7 @@ def gen_cases(tier, rng):
     cases += callscommon.gen("callsn", tier, rng, 3, 1500 if q else 15000, 6)
     cases += callscommon.gen("callsne", tier, rng, 3, 1500 if q else 15000, 6)
     cases += callscommon.gen("callsd", tier, rng, 3, 800 if q else 8000, 6)
+    cases += callscommon.gen("callsde", tier, rng, 3, 800 if q else 8000, 6)
     return cases
 
 
